@@ -38,6 +38,19 @@ func TestC06Release(t *testing.T) {
 	if run.Thorough() {
 		types = chanmc.AllTypes
 	}
+	// "Keeps this across serialisation / a newer commitment is already durable":
+	// in every state, every auxiliary channeldb writer called through a handle
+	// loaded at start-up must leave the revocation store, the producer state and
+	// both commitments on disk as they were (terminal `side>X` probes).
+	sideTypes, sideCuts := []string{"anchors", "taproot"}, 0
+	if run.Thorough() {
+		sideTypes, sideCuts = chanmc.AllTypes, 1
+	}
+	for i, typ := range sideTypes {
+		sp = append(sp, chanmc.Space{Dev: -1, P: chanmc.Params{Type: typ, OpenerB: i%2 == 0, MaxCuts: sideCuts, CutOnlyInSync: true, SideWriters: true, Script: []chanmc.Intent{
+			{By: 0, Amt: 50_000_000, Fate: "settle"}, {By: 1, Amt: 60_000_001, Fate: "fail"},
+		}}})
+	}
 	for i, typ := range types {
 		sp = append(sp, chanmc.Space{Dev: -1, P: chanmc.Params{Type: typ, OpenerB: i%2 == 1, MaxCuts: 2, CutOnlyInSync: true, NoDLP: i%2 == 0, ProbeLiveReest: true, Script: []chanmc.Intent{
 			{By: 0, Amt: 50_000_000, Fate: "settle"}, {By: 1, Amt: 60_000_001, Fate: "settle"},
